@@ -182,6 +182,18 @@ def circuits(rng):
         c.ps(0, 0.7)
         c.herald(hp, 3)  # idle heralded mode: same U_full, different herald photons
         fam[f"idleherald{hp}"] = c
+    for hp in (0, 1):
+        # the same, but the idle heralded mode lives inside an ADDED sub-circuit (a private ancilla of the host):
+        # same U_full, same n_modes, same user modes, different herald photons - and no herald declared on the host itself
+        c = lw.Circuit(3)
+        c.bs(0, 1, reflectivity=0.4)
+        c.bs(1, 2, reflectivity=p)
+        c.ps(0, 0.7)
+        sub = lw.Circuit(2)
+        sub.bs(0, 1, reflectivity=0.3)  # the ancilla is coupled to user mode 2: its photon number changes the distribution
+        sub.herald(hp, 1)
+        c.add(sub, 2)  # three user modes + one private ancilla, like idleherald*
+        fam[f"subherald{hp}"] = c
     c = lw.Circuit(3)
     c.bs(0, 1, reflectivity=0.4)
     c.bs(1, 2, reflectivity=p)
@@ -268,7 +280,7 @@ MOVED_HERALD = [("herald_out0", "herald_out2"), ("herald_out2", "herald_out0"), 
 
 def gen_history(ctx: Ctx, rng, kind: str) -> list:
     steps = []
-    names = ["idleherald0", "idleherald1", "plain", "lossy", "heralded_sub", "swap", "herald_out0", "herald_out2",
+    names = ["idleherald0", "idleherald1", "subherald0", "subherald1", "plain", "lossy", "heralded_sub", "swap", "herald_out0", "herald_out2",
              "herald_in0", "lossy1", "dip_hom", "dip_mzi"]
     inputs = [[1, 0, 0], [1, 1, 0], [0, 1, 1], [2, 0, 0], [0, 0, 0], [1, 1, 1], [1, 0, 1]]
     directed = _gen_small_or_fn(ctx, rng, kind) if rng.random() < 0.3 else []
@@ -1067,6 +1079,7 @@ def field_corpus(kind: str) -> list:
             ("U_full(in place)", [], [["mutate_circuit", "ps", 0]]),
             ("U_full(shape)", [], [["mutate_circuit", "loss", 1]]),
             ("heralds", [["circuit", "idleherald0"]], [["circuit", "idleherald1"]]),
+            ("heralds", [["circuit", "subherald0"]], [["circuit", "subherald1"]]),
             ("heralds[output]", [["circuit", "herald_out0"]], [["circuit", "herald_out2"]]),
             ("heralds(moved)", [["circuit", "herald_out0"]], [["circuit", "herald_in0"]]),
             ("n_modes+heralds(gate)", [], [["mutate_circuit", "gate", 0]]),
@@ -1092,6 +1105,7 @@ def field_corpus(kind: str) -> list:
             ("U_full(in place)", [], [["mutate_circuit", "ps", 0]]),
             ("U_full(shape)", [], [["mutate_circuit", "loss", 1]]),
             ("heralds", [["circuit", "idleherald0"]], [["circuit", "idleherald1"]]),
+            ("heralds", [["circuit", "subherald0"]], [["circuit", "subherald1"]]),
             ("heralds[output]", [["circuit", "herald_out0"]], [["circuit", "herald_out2"]]),
             ("n_modes+heralds(gate)", [], [["mutate_circuit", "gate", 0]]),
             ("input_state", [], [["input", [1, 1, 0]]]),
@@ -1180,7 +1194,7 @@ def analyzer_probe(ctx: Ctx, rng) -> None:
 
 def analyzer_histories(ctx: Ctx, rng) -> None:
     """a long-lived Analyzer under circuit / post-selection reassignment vs a fresh Analyzer per call"""
-    names = ["idleherald0", "idleherald1", "plain", "lossy", "heralded_sub", "herald_out0", "herald_out2", "herald_in0", "lossy1",
+    names = ["idleherald0", "idleherald1", "subherald0", "subherald1", "plain", "lossy", "heralded_sub", "herald_out0", "herald_out2", "herald_in0", "lossy1",
              "dip_hom", "dip_mzi", near_name("lossy", 0.0), near_name("lossy", 1e-6), near_name("hom", 0.0), near_name("hom", 4e-6)]
     rulesets = [None, [[0], [0, 1]], [[1], [1]], [[0, 1], [1, 2]]]
     for _ in range(ctx.n(25, 400)):
@@ -1286,9 +1300,17 @@ def analyzer_histories(ctx: Ctx, rng) -> None:
 # Inputs are given on the three user modes of the family and padded with zeros to the circuit's input_modes.
 # A step that does not apply is skipped, so every sub-list is a history.
 
-SH_CIRCUITS = ["idleherald0", "idleherald1", "plain", "lossy", "lossy_dil", "heralded_sub", "swap", "herald_out0",
+SH_CIRCUITS = ["idleherald0", "idleherald1", "subherald0", "subherald1", "plain", "lossy", "lossy_dil", "heralded_sub", "swap", "herald_out0",
                "herald_out2", "herald_in0", "lossy1"]
 SH_INPUTS = [[1, 0, 0], [1, 1, 0], [0, 1, 1], [2, 0, 0], [0, 0, 0], [1, 1, 1], [1, 0, 1]]
+REJECTS = [["backend", "clifford"], ["backend", "bogus"], ["source", ["brightness", 1.5]], ["source", ["purity", -0.1]],
+           ["source", ["indistinguishability", 2]], ["detector", ["efficiency", 1.5]], ["detector", ["p_dark", -0.2]]]
+
+
+def _reject_step(rng, name: str) -> list:
+    return ["reject_own", name, *rng.choice(REJECTS)]
+
+
 SH_SRC = [[1, 1, 1], [0.8, 1, 1], [1, 0.9, 1], [1, 1, 0.7], [0.9, 0.95, 0.8]]
 SH_DET = [[1, 0, True], [1, 0, False], [0.9, 0, True], [0.85, 0, False], [1, 0.05, True]]
 SH_RULES = [None, [[0], [1]], [[0, 1], [1, 2]], [[2], [0]], [[1], [0, 1]]]
@@ -1550,6 +1572,27 @@ def _run_shared(ctx: Ctx, steps: list, tk: dict) -> list[str]:
                 if bad:
                     return bad
                 continue
+            if op == "reject_own":
+                # an assignment the component REFUSES, made in place through the holder (backend "clifford" / unknown,
+                # brightness 1.5, efficiency -0.2 ...): the exception is caught (notebook use) and the holder keeps being
+                # used; a refused assignment changes nothing, which the cross-check of every holder's public settings
+                # against the harness's record verifies right away and every later read against a fresh object
+                what, v = st[2], st[3]
+                if kind != "sampler":
+                    continue
+                try:
+                    if what == "backend":
+                        obj.backend.backend = v
+                    elif what == "source":
+                        setattr(obj.source, v[0], v[1])
+                    else:
+                        setattr(obj.detector, v[0], v[1])
+                except Exception:  # noqa: BLE001
+                    ctx.count("shared:refused_in_place_assignment")
+                bad = unassigned_change(k, st)
+                if bad:
+                    return bad
+                continue
             if op == "mutate_own":
                 what, v = st[2], st[3]
                 if what == "ps_add":
@@ -1666,7 +1709,7 @@ def _shared_corpus() -> list:
     rd = lambda n: ["obs", n, "read"]  # noqa: E731
     # one Backend object, circuits related as lossy circuit / Unitary of its U_full (same photons, same columns),
     # same matrix with other herald photons, herald on another mode - in both orders, first holder read again
-    pairs = [("lossy", "lossy_dil"), ("idleherald0", "idleherald1"), ("herald_out0", "herald_out2"), ("plain", "swap"),
+    pairs = [("lossy", "lossy_dil"), ("idleherald0", "idleherald1"), ("subherald0", "subherald1"), ("subherald1", "idleherald0"), ("herald_out0", "herald_out2"), ("plain", "swap"),
              ("herald_out0", "herald_in0")]
     for a, b in pairs + [(y, x) for x, y in pairs]:
         for ref in ("B0", "B1"):
@@ -1687,6 +1730,12 @@ def _shared_corpus() -> list:
                 rd("S1"), rd("S2"), ["mutate_own", "S1", "source", [0.8, 1, 1]], ["mutate_own", "S1", "detector", [0.9, 0, False]],
                 ["mutate_own", "S1", "backend", "slos"], rd("S2"), ["obs", "S2", "sample_N_inputs", 20, 3, None], rd("S1"),
                 ["obs", "S1", "sample_N_inputs", 20, 3, None]])
+    # assignments the components refuse, made in place through a holder: nothing changes, for the holder and for a second one
+    for rej in REJECTS:
+        out.append([["new", "S1", "sampler", "plain", [1, 1, 0], smp("B0", "SRC0", "D0")], rd("S1"),
+                    ["new", "S2", "sampler", "lossy", [1, 1, 0], smp("B0", "SRC0", "D0")], ["reject_own", "S1", *rej], rd("S1"), rd("S2"),
+                    ["obs", "S1", "sample_N_inputs", 20, 3, None], ["mutate_own", "S1", "backend", "slos"], ["reject_own", "S2", *rej],
+                    rd("S2"), rd("S1")])
     # DEFAULT COMPONENTS ARE PER OBJECT: holders created without source / detector / backend (argument left out, None, None
     # by position), before and after ONE of them tunes its own default in place; a holder put back on a default (= None)
     dflt = lambda form: {"b": "own", "s": "own", "d": "own", "form": form}  # noqa: E731
@@ -1739,7 +1788,7 @@ def _shared_corpus() -> list:
     # one PostSelection object and one circuit object used by a Sampler, a QuickSampler and an Analyzer in turn;
     # the circuit is replaced / extended in place between the calls
     r = [[0], [1]]
-    for second in ("herald_out2", "herald_in0", "idleherald1"):
+    for second in ("herald_out2", "herald_in0", "idleherald1", "subherald1"):
         out.append([["new", "Q1", "quick", "herald_out0", [1, 1, 0], {"pnr": True, "ps": r}], ["new", "A1", "analyzer", "herald_out0", [1, 1, 0], {"ps": r}],
                     ["new", "S1", "sampler", "herald_out0", [1, 1, 0], smp("B0")], rd("Q1"), ["obs", "A1", "analyze", [[1, 1, 0]], False],
                     ["obs", "S1", "sample_N_outputs", 20, 7, r], ["set", "A1", "circuit", second], ["set", "Q1", "circuit", second],
@@ -1924,6 +1973,8 @@ def gen_shared(ctx: Ctx, rng) -> list:
                 v = _nudged(rng, v)
                 ctx.count("shared:small:component_nudged_through_a_holder")
             steps.append(["mutate_own", name, what, v])
+            if rng.random() < 0.3:
+                steps.append(_reject_step(rng, name))
         elif r < 0.6:
             steps.append(["mutate_own", name, "ps_add", rng.choice(SH_RULES[1:])])
         elif r < 0.72 and kind == "sampler":
